@@ -414,7 +414,12 @@ pub fn manifest_xml(doc: &OdsDoc, parts: &[&str]) -> String {
         if doc.encrypted_entries.iter().any(|e| e == p) {
             m.push_str(&format!("<manifest:file-entry manifest:full-path=\"{p}\" manifest:media-type=\"text/xml\" manifest:size=\"1234\"><manifest:encryption-data manifest:checksum-type=\"urn:oasis:names:tc:opendocument:xmlns:manifest:1.0#sha256-1k\" manifest:checksum=\"AAAA\"><manifest:algorithm manifest:algorithm-name=\"http://www.w3.org/2001/04/xmlenc#aes256-cbc\" manifest:initialisation-vector=\"AAAA\"/><manifest:key-derivation manifest:key-derivation-name=\"PBKDF2\" manifest:key-size=\"32\" manifest:iteration-count=\"100000\" manifest:salt=\"AAAA\"/><manifest:start-key-generation manifest:start-key-generation-name=\"http://www.w3.org/2000/09/xmldsig#sha256\" manifest:key-size=\"32\"/></manifest:encryption-data></manifest:file-entry>"));
         } else {
-            m.push_str(&format!("<manifest:file-entry manifest:full-path=\"{p}\" manifest:media-type=\"text/xml\"/>"));
+            // both spellings of an empty element occur in the wild (long form when `pretty`)
+            if doc.pretty {
+                m.push_str(&format!("<manifest:file-entry manifest:full-path=\"{p}\" manifest:media-type=\"text/xml\"></manifest:file-entry>"));
+            } else {
+                m.push_str(&format!("<manifest:file-entry manifest:full-path=\"{p}\" manifest:media-type=\"text/xml\"/>"));
+            }
         }
     }
     m.push_str("</manifest:manifest>");
